@@ -449,6 +449,16 @@ func c10Gen(tier string, rng *rand.Rand, emit func(Case)) {
 	// a response that ends in a package cut short by the end of the message, then further responses in small
 	// packets (c02.go): nothing left over from the broken one may reach the next (stale read position)
 	brokenThenNextGen(tier, rng, emit)
+	// the login negotiation is server input too: the reply scripts of C08 that carry an unusable key or
+	// nonce, or none (c08.go)
+	loginGen(tier, rng, func(c Case) {
+		for _, v := range []string{",kb,", ",kt,", ",kw,", ",kl,", ",kz,", ",kn,", ",kh,", ",e,", ",n0", ",n60", "pm:i2"} {
+			if strings.Contains(c.Line, v) {
+				emit(Case{Line: c.Line, Kind: "login-hostile"})
+				return
+			}
+		}
+	})
 	// packet level: all header values incl. length < 8 (c14.go)
 	rdrawGen(tier, rng, emit)
 	// value level: every data type with every data length 0..255 (c10values.go)
@@ -467,6 +477,9 @@ func c10Impl(line string) string {
 	}
 	if strings.HasPrefix(line, "rx ") {
 		return rxImpl(line)
+	}
+	if strings.HasPrefix(line, "login ") {
+		return loginImpl(line)
 	}
 	return pkgImpl(line)
 }
@@ -490,6 +503,12 @@ func c10Oracle(line, out string) string {
 			if ps < 9 || ps > 65535 {
 				return "no server input makes the client crash or hang on its next send (an unusable packet size is never put in force)"
 			}
+		}
+		return ""
+	}
+	if strings.HasPrefix(line, "login ") {
+		if strings.Contains(out, "panic") || out == "crash" || out == "timeout" {
+			return "no server input makes the client crash or hang during login (unusable keys, nonces and reply sequences are errors)"
 		}
 		return ""
 	}
@@ -541,6 +560,7 @@ func init() {
 	})
 	register(&Prop{
 		ID: "C10", Gen: c10Gen, Impl: c10Impl, Oracle: c10Oracle,
+		Agree: func(m, i string) bool { return m == i || m == txStrip(i) },
 		FindingKey: func(line, out, clause string) string {
 			f := strings.Fields(line)
 			if len(f) > 2 {
